@@ -26,7 +26,8 @@ namespace internal {
 template <typename T>
 constexpr auto round_int(T const x) noexcept -> T
 {
-    return static_cast<T>(find_whole(x));
+    // x > 0. Stays in T: for long double floor(x) + 1 can be 2^63, which find_whole's llint_t cannot hold
+    return (x - floor_check(x) >= T(0.5) ? floor_check(x) + T(1) : floor_check(x));
 }
 
 template <typename T>
